@@ -300,7 +300,12 @@ pub fn run_isolated(prop: &str, case: &Value, timeout_s: u64, timeout_is_violati
             .filter(|v| v.fingerprint.starts_with("hang:"))
             .and_then(|v| v.msg.rsplit("[resume-after ").next().and_then(|s| s.trim_end_matches(']').parse::<u64>().ok()));
         match resume {
-            Some(k) if rounds < 8 => {
+            Some(k) if rounds < 5 => {
+                // one hang of the "short write reported every time" kind is enough for a case:
+                // every further one would cost another time-out
+                if o.violation.as_ref().map_or(false, |v| v.msg.contains("reported every time")) {
+                    case["cqe_persistent"] = serde_json::json!(false);
+                }
                 acc.push(o.violation.take().unwrap());
                 acc.extend(o.more.drain(..));
                 case["skip"] = serde_json::json!(k + 1);
